@@ -76,6 +76,10 @@ int main(int argc, char **argv) {
     // Build geometry by hand: POSITION, NORMAL, TAG.
     vf::Geo g;
     int idx_p = 0, idx_n = 1, idx_t = 2;
+    const bool two_normals = r.below(4) == 0;
+    int q2 = bias[r.below(12)];
+    if (q2 == q) q2 = q < 16 ? q + 6 : q - 6;
+    std::vector<float> normals2;
     g.is_mesh = !point_cloud;
     g.family = topo.name;
     const size_t nvals = per_corner ? topo.tris.size() * 3 : topo.nverts;
@@ -112,9 +116,19 @@ int main(int argc, char **argv) {
       g.atts.resize(3);
       g.atts[idx_p] = p; g.atts[idx_n] = n; g.atts[idx_t] = t;
       g.pos_att = idx_p;
+      // A second NORMAL attribute with its own bit count (per-attribute options: ExpertEncoder only).
+      if (two_normals) {
+        normals2.resize(nvals * 3);
+        for (size_t i = 0; i < nvals; ++i) GenNormal(r, static_cast<int>(r.below(5)), &normals2[3 * i]);
+        vf::Attr n2 = n;
+        n2.unique_id = 8;
+        n2.data.assign(reinterpret_cast<uint8_t *>(normals2.data()), reinterpret_cast<uint8_t *>(normals2.data()) + nvals * 12);
+        g.atts.push_back(n2);
+      }
     }
     vf::EncOpts o = vf::GenOpts(r, g, false);
-    o.qbits.assign(3, -1);
+    o.qbits.assign(g.atts.size(), -1);
+    if (two_normals) { o.expert = true; o.qbits[3] = q2; o.pred.resize(4, -100); o.pred[3] = r.below(2) ? -100 : (r.below(2) ? PREDICTION_DIFFERENCE : MESH_PREDICTION_GEOMETRIC_NORMAL); }
     o.qbits[idx_n] = q;
     if (!int_pos && r.below(4) != 0) o.qbits[idx_p] = static_cast<int>(r.range(4, 20));  // quantized positions enable the geometric predictor
     if (!point_cloud && o.method == 1 && false) {}
@@ -125,7 +139,7 @@ int main(int argc, char **argv) {
     if (!o.expert) { o.pred[idx_p] = o.pred[idx_p] == MESH_PREDICTION_GEOMETRIC_NORMAL ? -100 : o.pred[idx_p]; o.pred[idx_t] = -100; }
     vf::AvoidHugeEntropyTables(g, &o);
     const std::string desc = topo.name + (point_cloud ? " pc" : " mesh") + " nvals=" + std::to_string(nvals) + " q=" + std::to_string(q) + (per_corner ? " per-corner" : " per-vertex") + (int_pos ? " int-pos" : " float-pos") +
-                             " style=" + std::to_string(style_mix) + " | " + o.Describe();
+                             " style=" + std::to_string(style_mix) + (two_normals ? " second-normal-q=" + std::to_string(q2) : std::string()) + " | " + o.Describe();
     rep.note(desc);
     rep.stage(0, "normals.f32", normals.data(), std::min<size_t>(normals.size() * 4, 1 << 20));
     std::unique_ptr<Mesh> mesh;
@@ -145,24 +159,26 @@ int main(int argc, char **argv) {
     if (!na || !ta || na->data_type() != DT_FLOAT32 || na->num_components() != 3) { rep.violation("decoded-normal-attribute-missing-or-retyped/" + cfg, desc, arts); return; }
     bool geometric = false;
     for (auto &e : trace.evs) if (e.kind == draco::verif::EV_DEC_PREDICTION && e.a == MESH_PREDICTION_GEOMETRIC_NORMAL) geometric = true;
-    const double bound = 3.0 * (2.0 / (std::ldexp(1.0, q) - 2.0)) + 2e-6;
     double worst = 0;
     int64_t judged = 0, tiny = 0;
+    bool violated = false;
+    auto judge = [&](const PointAttribute *na, const std::vector<float> &normals, int q, const std::string &which) {
+    const double bound = 3.0 * (2.0 / (std::ldexp(1.0, q) - 2.0)) + 2e-6;
     for (uint32_t p = 0; p < dr.pc->num_points(); ++p) {
       uint32_t id; float y[3];
       ta->GetMappedValue(PointIndex(p), &id);
       na->GetMappedValue(PointIndex(p), y);
-      if (id >= nvals) { rep.violation("tag-out-of-range/" + cfg, desc, arts); return; }
+      if (id >= nvals) { rep.violation("tag-out-of-range/" + cfg, desc, arts); violated = true; return; }
       const float *x = &normals[3 * id];
       char m[300];
       if (!std::isfinite(y[0]) || !std::isfinite(y[1]) || !std::isfinite(y[2])) {
         snprintf(m, sizeof m, " x=(%.9g,%.9g,%.9g) y=(%g,%g,%g)", x[0], x[1], x[2], y[0], y[1], y[2]);
-        rep.violation("decoded-normal-not-finite/" + cfg, desc + m, arts); return;
+        rep.violation("decoded-normal-not-finite/" + cfg + which, desc + m, arts); violated = true; return;
       }
       const double ly = std::sqrt(static_cast<double>(y[0]) * y[0] + static_cast<double>(y[1]) * y[1] + static_cast<double>(y[2]) * y[2]);
       if (std::fabs(ly - 1.0) > 1e-6) {
         snprintf(m, sizeof m, " x=(%.9g,%.9g,%.9g) y=(%.9g,%.9g,%.9g) |y|=%.9g", x[0], x[1], x[2], y[0], y[1], y[2], ly);
-        rep.violation("decoded-normal-not-unit/" + cfg, desc + m, arts); return;
+        rep.violation("decoded-normal-not-unit/" + cfg + which, desc + m, arts); violated = true; return;
       }
       const double l1 = std::fabs(static_cast<double>(x[0])) + std::fabs(static_cast<double>(x[1])) + std::fabs(static_cast<double>(x[2]));
       if (l1 < 1e-5) { ++tiny; continue; }  // zero-length / documented "zero" band: no angle requirement
@@ -175,8 +191,18 @@ int main(int argc, char **argv) {
       worst = std::max(worst, ang / bound);
       if (ang > bound) {
         snprintf(m, sizeof m, " x=(%.9g,%.9g,%.9g) y=(%.9g,%.9g,%.9g) angle=%.9g bound=%.9g", x[0], x[1], x[2], y[0], y[1], y[2], ang, bound);
-        rep.violation("angle-bound-exceeded/" + cfg + (geometric ? "/geometric-normal" : "/difference"), desc + m, arts); return;
+        rep.violation("angle-bound-exceeded/" + cfg + (geometric ? "/geometric-normal" : "/difference") + which, desc + m, arts); violated = true; return;
       }
+    }
+    };
+    judge(na, normals, q, "");
+    if (violated) return;
+    if (two_normals) {
+      const PointAttribute *na2 = dr.pc->GetAttributeByUniqueId(8);
+      if (!na2 || na2->data_type() != DT_FLOAT32 || na2->num_components() != 3) { rep.violation("decoded-normal-attribute-missing-or-retyped/" + cfg + "/second-normal", desc, arts); return; }
+      judge(na2, normals2, q2, "/second-normal");
+      if (violated) return;
+      rep.count("two_normal_attributes");
     }
     // Octahedral coordinates through a skip-transform decode.
     vf::DecResult ds = vf::Decode(er.bytes.data(), er.bytes.size(), {GeometryAttribute::NORMAL});
